@@ -3,6 +3,7 @@ pub mod c09;
 pub mod c10;
 pub mod c11;
 pub mod c12;
+pub mod c13;
 pub mod hist;
 
 use crate::harness::Arm;
@@ -15,6 +16,7 @@ pub fn all_arms() -> Vec<Box<dyn Arm>> {
     v.push(Box::new(c10::C10));
     v.push(Box::new(c11::C11));
     v.push(Box::new(c12::C12));
+    v.push(Box::new(c13::C13));
     v
 }
 
